@@ -77,4 +77,7 @@ Terminal == stage = "run" /\ rt.left
 MonOk == mon.ok
 \* read on the state: the block is left only when no task is running (unless the application is crashing)
 WaitsForTasks == (stage = "run" /\ rt.left) => Live(rt) = {}
+\* under weak fairness every run ends with the owning block left (teardown does not hang once the tasks end)
+Spec == Init /\ [][Next]_vars /\ WF_vars(Next)
+Ends == (stage = "run") ~> Terminal
 =============================================================================
